@@ -24,9 +24,12 @@ section index valid, every relocation section linked to the symbol table and to 
 with every symbol index and offset in range, section groups well formed and every COMDAT signature
 of the inputs still a group signature; and `readelf -a` must not print a warning or an error.
 
-Keys name the cause, not the vector: `run:<program>:<tag of first differing line>:<pipeline>`,
-`link-fails:<stage>:<diagnostic class>:<pipeline>`, `structure:<class>`, `direct-link:<program>:
-<tag>:<kind>`.  The text of a violation lists the partitions / kinds / programs it covers.
+Keys name the cause, not the vector: `structure:<class>` (ill-formed relocatable),
+`final-fails:reloc-lost-its-symbol(<what>):<pipeline>` (final link or run fails and a relocatable of
+the partition carries relocations that lost their symbol - nothing else can be learnt from such a
+partition), `link-fails:<stage>:<diagnostic class>:<pipeline>`, `run:<program>:<tag of the first
+differing transcript line>:<pipeline>`, `direct-link:<program>:<tag>:<kind>`.  The text of a
+violation lists the programs / partitions / kinds it covers.
 """
 import itertools
 import os
@@ -41,12 +44,11 @@ import wildrun
 import elfread
 import runcorpus as R
 
-QUICK_PROGRAMS = ["p2_pic_O1_noplt", "p3_pie_Os_sections", "p4_pie_cxx", "p8_nopic_Os"]
+QUICK_PROGRAMS = ["p3_pie_Os_sections", "p4_pie_cxx", "p6_pic_O2", "p8_nopic_Os"]
 PIPELINES = ["wild-r>wild", "ld-r>wild", "wild-r>ld"]
 KINDS = ["static", "static-pie"]
 PARTS = R.partitions4()
 BLOCKS = sorted({b for p in PARTS for b in p if len(b) > 1}, key=lambda b: (len(b), b))
-_BASE = None
 
 
 def kinds_of(P):
@@ -54,7 +56,7 @@ def kinds_of(P):
 
 
 def run_ld(argv, cwd):
-    p = subprocess.run(["ld", *argv], cwd=cwd, stdin=subprocess.DEVNULL, capture_output=True)
+    p = subprocess.run(["ld", "--no-demangle", *argv], cwd=cwd, stdin=subprocess.DEVNULL, capture_output=True)
     return p.returncode, p.stderr.decode("utf-8", "replace")
 
 
@@ -93,6 +95,20 @@ def symbol_nature(d, name):
     return best
 
 
+def in_comdat_group(d, name):
+    """Is `name` defined in a section that is a member of a COMDAT group in one of the inputs?"""
+    for t in "mabch":
+        try:
+            e = elfread.Elf(os.path.join(d, t + ".o"))
+        except (OSError, elfread.ElfError):
+            continue
+        for s in e.symbols(".symtab"):
+            if s.name == name and 0 < s.shndx < len(e.sections) and \
+                    e.sections[s.shndx].sh_flags & elfread.SHF_GROUP:
+                return True
+    return False
+
+
 def msg_class(msg, d):
     """A short, stable class of a linker diagnostic (wild or GNU ld)."""
     m = re.search(r"Undefined symbol (\S+?),? ", msg) or re.search(r"undefined reference to `([^']+)'", msg)
@@ -100,7 +116,7 @@ def msg_class(msg, d):
         return f"undefined-{symbol_nature(d, m.group(1))}-symbol"
     m = re.search(r"Duplicate symbols detected: (\S+?),", msg) or re.search(r"multiple definition of `([^']+)'", msg)
     if m:
-        return "duplicate-symbol-" + ("in-comdat-group" if m.group(1) in ("vq_thunk",) or m.group(1).startswith("_Z")
+        return "duplicate-symbol-" + ("in-comdat-group" if in_comdat_group(d, m.group(1))
                                       else symbol_nature(d, m.group(1)))
     if "panicked" in msg:
         m = re.search(r"panicked at ([^\n]*)", msg)
@@ -248,6 +264,41 @@ def symbol_losses(path, input_paths):
     return sorted(set(lost))
 
 
+def lost_references(path, input_paths, d):
+    """Relocations of the output that name no symbol (index 0, type != NONE) although no input
+    relocation does: the names the inputs refer to and the output no longer does, by nature.
+    -> (count of such relocations, {nature: [names]})"""
+    def refs(p):
+        e = elfread.Elf(p)
+        names, null = set(), 0
+        for r in e.relocations():
+            if r.sym_index == 0:
+                null += r.type != 0
+            elif r.sym_name:
+                names.add(r.sym_name)
+        return names, null
+    try:
+        out_names, out_null = refs(path)
+    except (elfread.ElfError, OSError):
+        return 0, {}
+    in_names, in_null = set(), 0
+    for p in input_paths:
+        n, z = refs(p)
+        in_names |= n
+        in_null += z
+    if out_null <= in_null:
+        return 0, {}
+    nat = {}
+    for name in sorted(in_names - out_names):
+        if name.startswith("."):
+            continue
+        k = symbol_nature(d, name)
+        if k == "unknown" and name.startswith("_"):
+            k = "linker-defined"          # __start_X/__stop_X, __ehdr_start, __init_array_start, ...
+        nat.setdefault(k, []).append(name)
+    return out_null - in_null, nat
+
+
 def readelf_warnings(path):
     p = subprocess.run(["readelf", "-a", "-W", path], stdin=subprocess.DEVNULL, stdout=subprocess.DEVNULL,
                        stderr=subprocess.PIPE)
@@ -256,47 +307,71 @@ def readelf_warnings(path):
 
 
 # ------------------------------------------------------------------------------------- stages
-def stage_reference(job):
-    """Per program: compile, helper, GNU ld direct links in all input orders, wild direct links."""
-    base, name, orders = job
-    P = R.program(name)
+def stage_materialise(job):
+    base, name = job
+    R.materialise(R.program(name), os.path.join(base, name))
+    return name
+
+
+def stage_ld_direct(job):
+    """GNU ld's direct link of one program in one input order, run."""
+    base, name, kind, perm = job
     d = os.path.join(base, name)
-    names = R.materialise(P, d)
-    res = dict(name=name, spawns=1, refs={}, order_diffs=[], direct={}, error=None, lines=0)
-    for kind in kinds_of(P):
-        ref = None
-        for perm in orders:
-            out = f"ref_{kind}_{''.join(perm)}"
-            rc, err = run_ld(R.link_argv(kind, [names[t] for t in perm], out), d)
-            res["spawns"] += 1
-            if rc != 0:
-                res["error"] = f"GNU ld cannot link {name} ({kind}, order {perm}): {err[-300:]}"
-                return res
-            got = R.run_native(os.path.join(d, out), d)
-            res["spawns"] += 1
-            os.unlink(os.path.join(d, out))
-            if ref is None:
-                ref = got
-            elif R.first_diff(ref, got):
-                res["order_diffs"].append((kind, "".join(perm), R.first_diff(ref, got)))
-        res["refs"][kind] = ref
-        out = f"direct_{kind}"
-        rc, msg = wild(R.link_argv(kind, [names[t] for t in "mabc"], out), d)
-        if rc != 0:
-            res["direct"][kind] = ("link", rc, msg[-400:])
-        else:
-            got = R.run_native(os.path.join(d, out), d)
-            res["spawns"] += 1
-            res["direct"][kind] = ("run", got, R.first_diff(ref, got))
-    kinds = kinds_of(P)
-    if len(kinds) == 2 and R.first_diff(res["refs"][kinds[0]], res["refs"][kinds[1]]):
-        res["error"] = f"GNU ld's static and static-pie builds of {name} disagree: " \
-                       f"{R.first_diff(res['refs'][kinds[0]], res['refs'][kinds[1]])}"
-    if res["refs"][kinds[0]][0] != 42 or "RT-FAIL" in res["refs"][kinds[0]][1]:
-        res["error"] = f"reference run of {name} is not clean: {res['refs'][kinds[0]][0]} " \
-                       f"{res['refs'][kinds[0]][1][-200:]}"
-    res["lines"] = len(res["refs"][kinds[0]][1].splitlines())
-    return res
+    out = f"ref_{kind}_{''.join(perm)}"
+    rc, err = run_ld(R.link_argv(kind, [t + ".o" for t in perm], out), d)
+    if rc != 0:
+        return name, kind, perm, None, f"GNU ld cannot link {name} ({kind}, order {perm}): {err[-300:]}"
+    got = R.run_native(os.path.join(d, out), d)
+    os.unlink(os.path.join(d, out))
+    return name, kind, perm, got, None
+
+
+def stage_wild_direct(job):
+    base, name, kind, ref = job
+    d = os.path.join(base, name)
+    out = f"direct_{kind}"
+    rc, msg = wild(R.link_argv(kind, [t + ".o" for t in "mabc"], out), d)
+    if rc != 0:
+        return name, kind, ("link", rc, msg[-400:])
+    got = R.run_native(os.path.join(d, out), d)
+    return name, kind, ("run", got, R.first_diff(ref, got))
+
+
+def stage_reference(base, names, orders, chk=None):
+    """Compile; GNU ld direct links (all `orders` for the static kind, the natural order for
+    static-pie); wild direct links.  -> ({name: dict(refs, direct, lines)}, spawns) or raises
+    RuntimeError for a corpus problem."""
+    vlib.pmap(stage_materialise, [(base, n) for n in names], chunksize=1)
+    spawns = len(names)
+    jobs = []
+    for n in names:
+        for kind in kinds_of(R.program(n)):
+            for perm in (orders if kind == "static" else [tuple("mabc")]):
+                jobs.append((base, n, kind, tuple(perm)))
+    res = {n: dict(refs={}, direct={}, lines=0) for n in names}
+    for name, kind, perm, got, err in vlib.pmap(stage_ld_direct, jobs, chunksize=1):
+        spawns += 2
+        if err:
+            raise RuntimeError(err)
+        ref = res[name]["refs"].setdefault(kind, got)
+        fd = R.first_diff(ref, got)
+        if fd:
+            raise RuntimeError(f"program {name} depends on its input order under GNU ld ({kind}, "
+                               f"order {''.join(perm)}): {fd}")
+    for n in names:
+        refs = res[n]["refs"]
+        st = refs["static"]
+        if st[0] != 42 or "RT-FAIL" in st[1] or "STDERR" in st[1]:
+            raise RuntimeError(f"reference run of {n} is not clean: status {st[0]} {st[1][-200:]}")
+        if "static-pie" in refs and R.first_diff(st, refs["static-pie"]):
+            raise RuntimeError(f"GNU ld's static and static-pie builds of {n} disagree: "
+                               f"{R.first_diff(st, refs['static-pie'])}")
+        res[n]["lines"] = len(st[1].splitlines())
+    jobs = [(base, n, kind, res[n]["refs"][kind]) for n in names for kind in res[n]["refs"]]
+    for name, kind, d in wildrun.pmap(stage_wild_direct, jobs, chunksize=1):
+        spawns += 1
+        res[name]["direct"][kind] = d
+    return res, spawns
 
 
 def stage_relocatable(job):
@@ -305,7 +380,8 @@ def stage_relocatable(job):
     d = os.path.join(base, name)
     out = f"r_{producer}_{blk}.o"
     argv = ["-r", *[t + ".o" for t in blk], "-o", out]
-    res = dict(name=name, blk=blk, producer=producer, out=out, spawns=0, structure=[], losses=[], argv=argv)
+    res = dict(name=name, blk=blk, producer=producer, out=out, spawns=0, structure=[], losses=[], argv=argv,
+               lost_refs={})
     if producer == "ld":
         rc, msg = run_ld(argv, d)
         res["spawns"] += 1
@@ -315,11 +391,24 @@ def stage_relocatable(job):
     if rc != 0:
         res["cls"] = msg_class(msg, d)
         return res
+    if producer == "ld":
+        # Sanity of the checker itself: GNU ld's relocatables must pass it.
+        inputs = [os.path.join(d, t + ".o") for t in blk]
+        res["structure"] = check_relocatable(os.path.join(d, out), inputs)
+        n_null, nat = lost_references(os.path.join(d, out), inputs, d)
+        if n_null:
+            res["structure"].append(("reloc-lost-its-symbol", str(nat)))
     if producer == "wild":
         inputs = [os.path.join(d, t + ".o") for t in blk]
         try:
             res["structure"] = check_relocatable(os.path.join(d, out), inputs)
             res["losses"] = symbol_losses(os.path.join(d, out), inputs)
+            n_null, nat = lost_references(os.path.join(d, out), inputs, d)
+            res["lost_refs"] = nat
+            if n_null:
+                for k, names_ in sorted(nat.items()) or [("unknown", [])]:
+                    res["structure"].append((f"reloc-lost-its-symbol:{k}", f"{n_null} relocations with symbol "
+                                             f"index 0; the inputs refer to {names_[:4]}, the output does not"))
         except Exception as ex:                                  # noqa: BLE001
             res["structure"] = [("checker-exception", repr(ex))]
         lines, rrc = readelf_warnings(os.path.join(d, out))
@@ -358,6 +447,7 @@ def stage_final(job):
         return res
     got = R.run_native(os.path.join(d, out), d)
     res["spawns"] += 1
+    res["sha"] = vlib.file_sha(os.path.join(d, out))
     try:
         os.unlink(os.path.join(d, out))
     except OSError:
@@ -376,9 +466,10 @@ def replay(chk, path):
     rp = json.load(open(path))["replay"]
     with vlib.scratch("c27r") as base:
         name = rp["program"]
-        ref = stage_reference((base, name, [tuple("mabc")]))
-        if ref["error"]:
-            chk.machinery(ref["error"])
+        try:
+            ref = stage_reference(base, [name], [tuple("mabc")])[0][name]
+        except RuntimeError as ex:
+            chk.machinery(str(ex))
         bad = 0
         if rp.get("mode") == "direct":
             print(ref["direct"][rp["kind"]])
@@ -424,26 +515,25 @@ def main():
     skipped_kind = 0
     with vlib.scratch("c27") as base:
         # ---- stage A: references
-        refs = {}
-        for r in vlib.pmap(stage_reference, [(base, n, orders) for n in names], chunksize=1):
-            spawns += r["spawns"]
-            if r["error"]:
-                chk.machinery(r["error"])
-            if r["order_diffs"]:
-                chk.machinery(f"program {r['name']} depends on its input order under GNU ld: {r['order_diffs'][:3]}")
-            refs[r["name"]] = r
-            P = R.program(r["name"])
+        try:
+            refs, sp = stage_reference(base, names, orders)
+        except RuntimeError as ex:
+            chk.machinery(str(ex))
+        spawns += sp
+        for name in names:
+            r = refs[name]
+            P = R.program(name)
             skipped_kind += (len(KINDS) - len(kinds_of(P))) * len(PARTS) * len(pipelines)
             for kind, dres in r["direct"].items():
                 n_eval += 1
                 if dres[0] == "link":
-                    chk.violation(f"direct-link:{r['name']}:link-fails:{kind}",
+                    chk.violation(f"direct-link:{name}:link-fails:{kind}",
                                   f"wild cannot link the 4 objects directly: rc={dres[1]} {dres[2]}",
-                                  {"mode": "direct", "program": r["name"], "kind": kind})
+                                  {"mode": "direct", "program": name, "kind": kind})
                 elif dres[2]:
-                    chk.violation(f"direct-link:{r['name']}:{dres[2][0]}:{kind}",
-                                  f"wild's direct {kind} link of {r['name']} differs from GNU ld's: {dres[2][1]}",
-                                  {"mode": "direct", "program": r["name"], "kind": kind})
+                    chk.violation(f"direct-link:{name}:{dres[2][0]}:{kind}",
+                                  f"wild's direct {kind} link of {name} differs from GNU ld's: {dres[2][1]}",
+                                  {"mode": "direct", "program": name, "kind": kind})
                 else:
                     n_ok += 1
         # ---- stage B: relocatables
@@ -461,6 +551,9 @@ def main():
                 key = f"link-fails:relocatable:{r['cls']}:wild-r"
                 struct_seen.setdefault(key, []).append((r, f"{r['name']}[{r['blk']}]: {r['msg'][-200:]}"))
                 continue
+            if r["producer"] == "ld" and r["structure"]:
+                chk.machinery(f"the structural checker rejects GNU ld's relocatable {r['name']}[{r['blk']}]: "
+                              f"{r['structure'][:2]}")
             if r["producer"] == "wild":
                 n_rel += 1
                 if not r["structure"]:
@@ -486,9 +579,12 @@ def main():
         if chk.seed:
             rnd.shuffle(jobs)
         groups = {}
+        final_images = set()
         for r in wildrun.pmap(stage_final, jobs, chunksize=2):
             spawns += r["spawns"]
             n_eval += 1
+            if r.get("sha"):
+                final_images.add(r["sha"])
             if r["stage"] == "ok":
                 n_ok += 1
                 outcomes.add((r["name"], "ok"))
@@ -499,7 +595,16 @@ def main():
             if r["stage"] == "no-relocatable":
                 outcomes.add((r["name"], "no-relocatable"))
                 continue                                             # reported in stage B
-            if r["stage"] == "link":
+            producer = r["pipeline"].split(">")[0][:-2]
+            nat = sorted({k for blk in r["part"] for k in
+                          rel.get((r["name"], blk, producer), {}).get("lost_refs", {})})
+            specific = r["stage"] == "link" and (r["cls"].startswith(("duplicate-symbol", "panic"))
+                                                 or r["cls"] == "undefined-hidden-symbol")
+            if nat and not specific:
+                # A relocatable of this partition has relocations that lost their symbol (reported as
+                # structure:reloc-lost-its-symbol:*): an unspecific failure afterwards is that defect.
+                key = f"final-fails:reloc-lost-its-symbol({'+'.join(nat)}):{r['pipeline']}"
+            elif r["stage"] == "link":
                 key = f"link-fails:final:{r['cls']}:{r['pipeline']}"
             else:
                 key = f"run:{r['name']}:{r['tag']}:{r['pipeline']}"
@@ -527,12 +632,13 @@ def main():
                                 "pipeline": r0["pipeline"], "kind": r0["kind"], "result": key})
         lines = {n: refs[n]["lines"] for n in names}
     chk.coverage = {
-        "evaluations": n_eval, "identical": n_ok, "distinct_nontrivial": max(len(outcomes), len(names)),
-        "programs": names, "transcript_lines": lines, "partitions_per_program": len(PARTS),
+        "evaluations": n_eval, "identical": n_ok, "distinct_nontrivial": len(final_images) + n_rel,
+        "distinct_final_images_run": len(final_images), "distinct_outcomes": len(outcomes),
+        "programs": len(names), "program_names": names, "transcript_lines": lines, "partitions_per_program": len(PARTS),
         "pipelines": pipelines, "kinds": KINDS,
         "skipped_static_pie_of_non_pic_programs": skipped_kind,
         "relocatables_by_wild_checked": n_rel, "relocatables_structurally_clean": n_struct_ok,
-        "gnu_ld_input_orders_verified_per_program_and_kind": len(orders),
+        "gnu_ld_input_orders_verified_per_program": len(orders),
         "subprocesses": spawns,
         "rule": "programs x all 15 set partitions of {m,a,b,c} (blocks of size>=2 pre-linked with -r) x "
                 "pipelines x {static, static-pie where the code is PIC}; quick tier: 4 of the 10 programs and "
